@@ -165,9 +165,15 @@ def _run_check(prop, tier, plan, base_seed, njobs, repo, scratch, t0):
         jdump(rep, path)
         if v["tape"] is not None:
             _minimise(path, v, repo, scratch)
-        # confirm in a fresh interpreter
-        rep, rec, job = runner.replay_file(path, repo, scratch, tag=f"confirm-{sig_hash(sig)}")
-        if _reproduces(rep, rec, job):
+        # confirm in a fresh interpreter (up to 3 attempts: a violation whose manifestation depends on heap
+        # contents -- uninitialised or out-of-bounds reads in compiled code -- is still a violation)
+        ok = False
+        for attempt in range(3):
+            rep, rec, job = runner.replay_file(path, repo, scratch, tag=f"confirm-{sig_hash(sig)}-{attempt}")
+            if _reproduces(rep, rec, job):
+                ok = True
+                break
+        if ok:
             new_lines.append((sig, path, rep["message"], len(vs)))
         else:
             nonrepro.append((sig, path))
